@@ -108,3 +108,35 @@ package badgerstore
 //@   ensures ok: imp(isNil(err), !old(kvhas[keyid(bytes(wt.rname))]) && kvhas == store(old(kvhas), keyid(old(bytes(wt.rname))), true) && chn == old(chn) + len(old(wt.st.onChange))
 //@       && imp(len(old(wt.st.onChange)) > 0, same(chid, wt.id) && isNil(chb) && same(cha, v)))
 //@   ensures failed: imp(!isNil(err), kvhas == old(kvhas) && chn == old(chn))
+//@
+//@ func writeTxn.Update$1(txn *badger.Txn) (err error)
+//@   requires txnOK(wt) && txn != nil && isNil(wt.v)
+//@   modifies all
+//@   ensures missing: imp(old(len(wt.rname) > 0 && !kvhas[keyid(bytes(wt.rname))]), isErr(err, res.ErrNotFound))
+//@   ensures ok: imp(isNil(err), old(kvhas[keyid(bytes(wt.rname))]) && kvhas == store(old(kvhas), keyid(old(bytes(wt.rname))), true) && bcn == old(bcn) + len(wt.st.beforeChange) && !isNil(before))
+//@   ensures failed: imp(!isNil(err), kvhas == old(kvhas))
+//@   ensures frame: unchanged("badgerstore.Store.onChange", "badgerstore.Store.beforeChange", "elems:badgerstore.Store.onChange") && chn == old(chn)
+//@   ensures wtframe: wt.st == old(wt.st) && same(wt.id, old(wt.id)) && same(wt.rname, old(wt.rname))
+//@ func (wt writeTxn) Update(v interface{}) (err error)
+//@   requires txnOK(wt) && isNil(wt.v)
+//@   modifies all
+//@   ensures missing: imp(old(len(wt.rname) > 0 && !kvhas[keyid(bytes(wt.rname))]), !isNil(err) && kvhas == old(kvhas) && chn == old(chn))
+//@   ensures ok: imp(isNil(err), old(kvhas[keyid(bytes(wt.rname))]) && kvhas == store(old(kvhas), keyid(old(bytes(wt.rname))), true) && chn == old(chn) + len(old(wt.st.onChange))
+//@       && imp(len(old(wt.st.onChange)) > 0, same(chid, wt.id) && !isNil(chb) && same(cha, v)))
+//@   ensures failed: imp(!isNil(err), kvhas == old(kvhas) && chn == old(chn))
+//@
+//@ func writeTxn.Delete$1(txn *badger.Txn) (err error)
+//@   requires txnOK(wt) && txn != nil && isNil(wt.v)
+//@   modifies all
+//@   ensures missing: imp(old(len(wt.rname) > 0 && !kvhas[keyid(bytes(wt.rname))]), isErr(err, res.ErrNotFound))
+//@   ensures ok: imp(isNil(err), old(kvhas[keyid(bytes(wt.rname))]) && kvhas == store(old(kvhas), keyid(old(bytes(wt.rname))), false) && !isNil(before))
+//@   ensures failed: imp(!isNil(err), kvhas == old(kvhas))
+//@   ensures frame: unchanged("badgerstore.Store.onChange", "badgerstore.Store.beforeChange", "elems:badgerstore.Store.onChange") && chn == old(chn)
+//@   ensures wtframe: wt.st == old(wt.st) && same(wt.id, old(wt.id)) && same(wt.rname, old(wt.rname)) && unchanged("bytes")
+//@ func (wt writeTxn) Delete() (err error)
+//@   requires txnOK(wt) && isNil(wt.v)
+//@   modifies all
+//@   ensures missing: imp(old(len(wt.rname) > 0 && !kvhas[keyid(bytes(wt.rname))]), !isNil(err) && kvhas == old(kvhas) && chn == old(chn))
+//@   ensures ok: imp(isNil(err), old(kvhas[keyid(bytes(wt.rname))]) && kvhas == store(old(kvhas), keyid(old(bytes(wt.rname))), false) && chn == old(chn) + len(old(wt.st.onChange))
+//@       && imp(len(old(wt.st.onChange)) > 0, same(chid, wt.id) && !isNil(chb) && isNil(cha)))
+//@   ensures failed: imp(!isNil(err), kvhas == old(kvhas) && chn == old(chn))
